@@ -310,7 +310,7 @@ theorem get?_of_mem {d : AList α β} {k : α} {v : β} (hn : (keys d).Nodup) (h
       simp only [this, if_false]
       exact ih hn.2 h'
 
-theorem set_of_not_mem (d : AList α β) (k : α) (v : β) (h : k ∉ keys d) :
+theorem set_of_not_mem_xf (d : AList α β) (k : α) (v : β) (h : k ∉ keys d) :
     set d k v = d ++ [(k, v)] := by
   induction d with
   | nil => rfl
@@ -332,7 +332,7 @@ theorem foldl_set_of_nodup (l acc : AList α β) (h : (keys (acc ++ l)).Nodup) :
       simp only [keys, List.map_append, List.map_cons] at h
       rw [List.nodup_append] at h
       exact h.2.2 _ (by simpa [keys] using hm) p.1 (by simp) rfl
-    rw [set_of_not_mem _ _ _ hp, ih]
+    rw [set_of_not_mem_xf _ _ _ hp, ih]
     · simp
     · simpa using h
 
